@@ -12,6 +12,8 @@ use std::ops::Deref;
 //@@ INCLUDE conv_imports_stub.inc.rs
 //@@ TYPE src/check/name/true_name/mod.rs | struct | TrueName
 
+// ---- /repo functions with ASSUMED contracts in this unit (bodies pinned; convert_node / convert_vec are PROVED in unit CONVNODE) --
+//@@ ASSUME src/generate/convert/state.rs | impl Imports | add_from_import
 verus! {
 
 //@@ INCLUDE conv_ext.inc.rs
